@@ -302,6 +302,10 @@ def orbit_cardinality(orbit: list, modes: int) -> Union[int, float]:
     Returns:
         int: number of samples in the orbit
     """
+    if len(orbit) > modes:
+        # the orbit does not fit into this many modes: it contains no samples
+        return 0
+
     sample = orbit + [0] * (modes - len(orbit))
     counts = list(Counter(sample).values())
 
